@@ -648,11 +648,13 @@ pub fn run(run: &Run) {
         ]
     } else {
         vec![
-            ("from a fresh session", vec![], 7, false),
-            ("from connected with one stream", one_stream.clone(), 6, false),
-            ("from publishing on stream 1", publishing.clone(), 6, false),
-            ("from publishing on 1 and playing on 2", playing_and_publishing.clone(), 5, true),
-            ("from two streams created and the first deleted", after_delete.clone(), 4, false),
+            ("from a fresh session", vec![], 8, false),
+            ("from a fresh session, extended alphabet", vec![], 6, true),
+            ("from connected with one stream", one_stream.clone(), 7, false),
+            ("from connected with two streams", two_streams.clone(), 5, true),
+            ("from publishing on stream 1", publishing.clone(), 7, false),
+            ("from publishing on 1 and playing on 2", playing_and_publishing.clone(), 6, true),
+            ("from two streams created and the first deleted", after_delete.clone(), 6, false),
         ]
     };
     for (name, prefix, depth, extended) in plans {
